@@ -336,12 +336,12 @@ func (s *Service) accountPathsToVerificationRegexes(paths []string) []*regexp.Re
 			parts = append(parts, ".*")
 		}
 		parts[1] = strings.TrimPrefix(parts[1], "^")
-		var specifier string
-		if strings.HasSuffix(parts[1], "$") {
-			specifier = fmt.Sprintf("^%s/%s", parts[0], parts[1])
-		} else {
-			specifier = fmt.Sprintf("^%s/%s$", parts[0], parts[1])
+		if !strings.HasSuffix(parts[1], `\$`) {
+			parts[1] = strings.TrimSuffix(parts[1], "$")
 		}
+		// Group the account expression so that the wallet and the anchors apply to
+		// all of it, not just to the first and last branch of an alternation.
+		specifier := fmt.Sprintf("^%s/(?:%s)$", parts[0], parts[1])
 		regex, err := regexp.Compile(specifier)
 		if err != nil {
 			log.Warn().Str("specifier", specifier).Err(err).Msg("Invalid path regex")
